@@ -169,11 +169,11 @@ type endpointV1 struct {
 }
 
 var v1Endpoints = []endpointV1{
-	{"v1-accounts", "/api/ledger/l1/accounts", []string{"address", "metadata[k]", "balance"}},
-	{"v1-transactions", "/api/ledger/l1/transactions", []string{"reference", "account", "source", "destination", "start_time", "end_time", "metadata[k]", "after"}},
-	{"v1-balances", "/api/ledger/l1/balances", []string{"address"}},
-	{"v1-aggregate-balances", "/api/ledger/l1/aggregate/balances", []string{"address"}},
-	{"v1-logs", "/api/ledger/l1/logs", []string{"start_time", "end_time"}},
+	{"v1-accounts", "/api/ledger/l1/accounts", []string{"address", "metadata[k]", "balance", "pit", "after"}},
+	{"v1-transactions", "/api/ledger/l1/transactions", []string{"reference", "account", "source", "destination", "start_time", "end_time", "metadata[k]", "after", "pit"}},
+	{"v1-balances", "/api/ledger/l1/balances", []string{"address", "pit", "after"}},
+	{"v1-aggregate-balances", "/api/ledger/l1/aggregate/balances", []string{"address", "pit"}},
+	{"v1-logs", "/api/ledger/l1/logs", []string{"start_time", "end_time", "after", "pit"}},
 }
 
 func isAddressKey(k string) bool {
